@@ -57,14 +57,16 @@ def cube_cases(rng, ncubes):
     out = []
     for _ in range(ncubes):
         ny, nx, n = 2, 3, rng.choice([6, 8, 10])
-        nd = -3000
         hasp = rng.random() < 0.5
         p = rng.choice([0.1, 0.9]) if hasp else None
-        pix = {(i, j): gaps(rng, series(rng, n, "season"), nd, rng.choice([0.0, 0.2])) for i in range(ny) for j in range(nx)}
+        raw = {(i, j): series(rng, n, "season") for i in range(ny) for j in range(nx)}
+        # nodata is an argument of the smoothers (also the falsy 0); the cube's own attribute is a decoy
+        nd = rng.choice([-3000, 0]) if all(v != 0 for s_ in raw.values() for v in s_) else -3000
+        pix = {k: gaps(rng, v, nd, rng.choice([0.0, 0.2])) for k, v in raw.items()}
         sgv = {(i, j): rng.choice([-1.0, -0.5, 0.0, 0.5, 1.0, 1.5, 2.0, "-inf"]) for i in range(ny) for j in range(nx)}
         data = np.array([[pix[(i, j)] for j in range(nx)] for i in range(ny)], dtype="float64")       # (y, x, time)
         ddims = rng.choice([("y", "x", "time"), ("time", "y", "x"), ("x", "time", "y")])
-        da = xr.DataArray(data, dims=("y", "x", "time"), coords={"y": [10.0, 20.0], "x": [1.0, 2.0, 3.0]}).transpose(*ddims)
+        da = xr.DataArray(data, dims=("y", "x", "time"), coords={"y": [10.0, 20.0], "x": [1.0, 2.0, 3.0]}, attrs={"nodata": float(raw[(0, 0)][0])}).transpose(*ddims)
         sga = np.array([[(-np.inf if sgv[(i, j)] == "-inf" else sgv[(i, j)]) for j in range(nx)] for i in range(ny)])
         sg = xr.DataArray(sga, dims=("y", "x"), coords={"y": [10.0, 20.0], "x": [1.0, 2.0, 3.0]})
         sgorder = rng.choice([("y", "x"), ("x", "y")])
@@ -112,7 +114,8 @@ def execute(c):
         dims = c.get("dims", ["time", "y", "x"])
         shape = [1, 1, 1]
         shape[dims.index("time")] = len(y)
-        da = xr.DataArray(y.reshape(shape), dims=dims)
+        decoy = next((float(t) for t in y.tolist() if np.isfinite(t) and t != nd), 12345.0)
+        da = xr.DataArray(y.reshape(shape), dims=dims, attrs={"nodata": decoy})    # a conflicting attribute: the argument counts
         if c.get("dask"):
             da = da.chunk({d: 1 for d in dims if d != "time"})
         kw = {}
